@@ -786,10 +786,19 @@ func (lc *leaderController) RangeScan(ctx context.Context, request *proto.RangeS
 }
 
 func (lc *leaderController) WriteBlock(ctx context.Context, request *proto.WriteRequest) (*proto.WriteResponse, error) {
+	// An invalid request is refused before an offset is assigned to it: it must not reach the log
+	if err := validateWriteRequest(request); err != nil {
+		return nil, err
+	}
 	return lc.writeBlock(ctx, func(_ int64) *proto.WriteRequest { return request })
 }
 
 func (lc *leaderController) Write(ctx context.Context, request *proto.WriteRequest, cb concurrent.Callback[*proto.WriteResponse]) {
+	// An invalid request is refused before an offset is assigned to it: it must not reach the log
+	if err := validateWriteRequest(request); err != nil {
+		cb.OnCompleteError(err)
+		return
+	}
 	lc.write(ctx, func(_ int64) *proto.WriteRequest { return request }, cb)
 }
 
